@@ -20,8 +20,18 @@ pub fn dump_body<'tcx>(tcx: TyCtxt<'tcx>, ldid: LocalDefId) -> J {
     let did = ldid.to_def_id();
     let body = tcx.optimized_mir(did);
     let cx = Cx { tcx, body, def: did, env: TypingEnv::post_analysis(tcx, did) };
-    let kind = tcx.def_kind(did);
+    let (locals, dbg, blocks) = dump_parts(&cx);
+    let mut promoted = Vec::new();
+    for pb in tcx.promoted_mir(did).iter() {
+        let pcx = Cx { tcx, body: pb, def: did, env: TypingEnv::post_analysis(tcx, did) };
+        let (pl, _pd, pbk) = dump_parts(&pcx);
+        promoted.push(J::obj().f("locals", J::A(pl)).f("blocks", J::A(pbk)).fi("argc", 0).f("debug", J::A(vec![])).done());
+    }
+    dump_rest(tcx, ldid, body, locals, dbg, blocks, promoted)
+}
 
+fn dump_parts<'a, 'tcx>(cx: &Cx<'a, 'tcx>) -> (Vec<J>, Vec<J>, Vec<J>) {
+    let body = cx.body;
     let mut locals = Vec::new();
     for (l, decl) in body.local_decls.iter_enumerated() {
         locals.push(
@@ -68,6 +78,12 @@ pub fn dump_body<'tcx>(tcx: TyCtxt<'tcx>, ldid: LocalDefId) -> J {
         );
     }
 
+    (locals, dbg, blocks)
+}
+
+fn dump_rest<'tcx>(tcx: TyCtxt<'tcx>, ldid: LocalDefId, body: &Body<'tcx>, locals: Vec<J>, dbg: Vec<J>, blocks: Vec<J>, promoted: Vec<J>) -> J {
+    let did = ldid.to_def_id();
+    let kind = tcx.def_kind(did);
     let parent = if matches!(kind, DefKind::Closure) {
         Some(def_str(tcx, tcx.typeck_root_def_id(did)))
     } else {
@@ -90,7 +106,8 @@ pub fn dump_body<'tcx>(tcx: TyCtxt<'tcx>, ldid: LocalDefId) -> J {
         .fi("argc", body.arg_count as i128)
         .f("locals", J::A(locals))
         .f("debug", J::A(dbg))
-        .f("blocks", J::A(blocks));
+        .f("blocks", J::A(blocks))
+        .f("promoted", J::A(promoted));
     if let Some(p) = parent {
         o = o.fs("parent", p);
     }
@@ -172,6 +189,11 @@ impl<'a, 'tcx> Cx<'a, 'tcx> {
     fn constant(&self, c: &ConstOperand<'tcx>) -> J {
         let ty = c.const_.ty();
         let mut o = J::obj().fs("k", "const").fs("ty", ty_str(ty));
+        if let Const::Unevaluated(uv, _) = c.const_ {
+            if let Some(p) = uv.promoted {
+                o = o.fi("promoted", p.as_usize() as i128);
+            }
+        }
         match ty.kind() {
             ty::FnDef(did, args) => {
                 o = o.fs("fn", def_str(self.tcx, *did));
@@ -204,6 +226,21 @@ impl<'a, 'tcx> Cx<'a, 'tcx> {
             }
             _ => {
                 o = o.fs("text", rustc_middle::ty::print::with_no_trimmed_paths!(format!("{}", c.const_)));
+                // pointer constants: does the allocation belong to a `static` item?
+                if let Const::Val(ConstValue::Scalar(rustc_middle::mir::interpret::Scalar::Ptr(ptr, _)), _) = c.const_ {
+                    let id = ptr.provenance.alloc_id();
+                    match self.tcx.global_alloc(id) {
+                        rustc_middle::mir::interpret::GlobalAlloc::Static(sd) => {
+                            o = o.fs("static", def_str(self.tcx, sd));
+                        }
+                        rustc_middle::mir::interpret::GlobalAlloc::Memory(_) => {
+                            o = o.fs("alloc", "memory");
+                        }
+                        _ => {
+                            o = o.fs("alloc", "other");
+                        }
+                    }
+                }
             }
         }
         o.done()
